@@ -111,8 +111,8 @@ theorem round_spec (hglue : WinterProofs.C11.{mod}.mm_eq_tail_statement)
     simp only [List.mem_cons, List.not_mem_nil, or_false] at he
     rcases he with {' | '.join('rfl' for _ in R)}
 ''' + '\n'.join(f'    · exact d{i}.1' for i in R) + f'''
-  · simp only [refRound_eq, matVecZ_eq, dotZ_eq, mds_table_eq, List.map_cons, List.map_nil, List.zipWith_cons_cons,
-      List.zipWith_nil_left, List.sum_cons, List.sum_nil, add_zero,
+  · simp only [refRound_eq, matVecZ_eq, dotZ_eq, mds_table_eq, map_cons', map_nil', zipWith_cons',
+      zipWith_nil', sum_cons', sum_nil', add_zero,
       hA, hI, Nat.cast_ofNat, add_assoc,
       {', '.join(f'd{i}.2' for i in R)},
       {', '.join(f'vz{i}' for i in R)},
